@@ -5,6 +5,7 @@
    back-off).  The numeric bound (request + dial + auth timeouts) is measured by the scenarios, not proved. *)
 From Coq Require Import List NArith.
 From OAP Require Import Base.Bytes Base.Res Gen.Consts Model.Metadata Model.Header Model.Waiters Model.Life Proofs.WaitersP Proofs.LifeP.
+From OAP Require Import Model.ChanForms Gen.Chans Proofs.ChanFormsP.
 Import ListNotations.
 Local Open Scope N_scope.
 
@@ -36,7 +37,13 @@ Proof.
   destruct (rev (l_conns s)) as [|c r]; [congruence|]. destruct (cn_open c); eexists; reflexivity.
 Qed.
 
+(* the wait of a request call is a select over the waiter channel and the call's own context (which carries the
+   request timeout): in the source (Gen/Chans.v) (client).recv has no other receive *)
+Theorem C06_call_wait_watches_its_context_in_source : call_wait_bounded chan_ops = true.
+Proof. exact call_wait_watches_its_context. Qed.
+
 Print Assumptions C06_waiting_call_can_always_return.
 Print Assumptions C06_swept_call_returns_lost.
 Print Assumptions C06_lifecycle_never_panics.
 Print Assumptions C06_write_on_closed_connection_returns.
+Print Assumptions C06_call_wait_watches_its_context_in_source.
